@@ -488,3 +488,69 @@ pub async fn run_entry<R: AsyncRead + Unpin>(e: Entry, rd: &mut R) -> Got {
         },
     }
 }
+
+
+//------------ short writes ---------------------------------------------------
+
+/// An `AsyncWrite` that accepts at most `max` octets per call and answers
+/// `Pending` before every second call — what a nearly full socket does.
+pub struct ShortWriter {
+    pub out: Vec<u8>,
+    pub max: usize,
+    pend: bool,
+}
+
+impl ShortWriter {
+    pub fn new(max: usize) -> Self {
+        ShortWriter { out: Vec::new(), max, pend: false }
+    }
+}
+
+impl tokio::io::AsyncWrite for ShortWriter {
+    fn poll_write(mut self: std::pin::Pin<&mut Self>, cx: &mut std::task::Context<'_>, buf: &[u8]) -> std::task::Poll<std::io::Result<usize>> {
+        self.pend = !self.pend;
+        if self.pend {
+            cx.waker().wake_by_ref();
+            return std::task::Poll::Pending;
+        }
+        let n = buf.len().min(self.max);
+        self.out.extend_from_slice(&buf[..n]);
+        std::task::Poll::Ready(Ok(n))
+    }
+    fn poll_flush(self: std::pin::Pin<&mut Self>, _: &mut std::task::Context<'_>) -> std::task::Poll<std::io::Result<()>> {
+        std::task::Poll::Ready(Ok(()))
+    }
+    fn poll_shutdown(self: std::pin::Pin<&mut Self>, _: &mut std::task::Context<'_>) -> std::task::Poll<std::io::Result<()>> {
+        std::task::Poll::Ready(Ok(()))
+    }
+}
+
+/// Writes the value with the library's own `write` into a sink that takes at
+/// most `max` octets per call. `None`: the write failed or did not finish.
+pub fn write_short(l: &Lib, max: usize) -> Option<Vec<u8>> {
+    use crate::c07_io::drive;
+    let mut out = ShortWriter::new(max);
+    let budget = 400_000;
+    let res = match l {
+        Lib::SerialNotify(x) => drive(x.write(&mut out), budget).0,
+        Lib::SerialQuery(x) => drive(x.write(&mut out), budget).0,
+        Lib::ResetQuery(x) => drive(x.write(&mut out), budget).0,
+        Lib::CacheResponse(x) => drive(x.write(&mut out), budget).0,
+        Lib::CacheReset(x) => drive(x.write(&mut out), budget).0,
+        Lib::Payload(x) => drive(x.write(&mut out), budget).0,
+        Lib::Eod(x) => drive(x.write(&mut out), budget).0,
+        Lib::Error(x) => drive(x.write(&mut out), budget).0,
+        Lib::Sq(h, p) => {
+            let a = drive(h.write(&mut out), budget).0;
+            match a {
+                Some(Ok(())) => drive(p.write(&mut out), budget).0,
+                other => other,
+            }
+        }
+        Lib::Header(h) => drive(h.write(&mut out), budget).0,
+    };
+    match res {
+        Some(Ok(())) => Some(out.out),
+        _ => None,
+    }
+}
